@@ -224,6 +224,19 @@ func c13Doc(x *core.Ctx, src string) {
 	reported := map[string]bool{}
 	rot := int(core.HashString(src) & 3)
 	_ = rot
+	{
+		// one formatter used twice writes the same text twice
+		cfg := allCfgs(0, true)[int(core.HashString(src)>>4)%80]
+		var b bytes.Buffer
+		f := formatter.NewFormatter(&b, cfg.opts()...)
+		f.FormatSchemaDocument(doc)
+		n := b.Len()
+		f.FormatSchemaDocument(doc)
+		x.Count("formatter_reuses")
+		if one, two := b.String()[:n], b.String()[n:]; one != two {
+			x.Violate("doc:formatter-reuse("+cfg.tag()+")", fmt.Sprintf("[%s] second use:\n%s", cfg, two), "first use:\n"+one)
+		}
+	}
 	for _, cfg := range allCfgs(0, true) {
 		x.Count("configs_checked")
 		out := fmtSchemaDoc(doc, cfg.opts())
@@ -315,6 +328,18 @@ func c13Schema(x *core.Ctx, src string) {
 		}
 	}
 	reported := map[string]bool{}
+	{
+		cfg := allCfgs(0, true)[int(core.HashString(src)>>4)%80]
+		var b bytes.Buffer
+		f := formatter.NewFormatter(&b, cfg.opts()...)
+		f.FormatSchema(s)
+		n := b.Len()
+		f.FormatSchema(s)
+		x.Count("formatter_reuses")
+		if one, two := b.String()[:n], b.String()[n:]; one != two {
+			x.Violate("schema:formatter-reuse("+cfg.tag()+")", fmt.Sprintf("[%s] second use:\n%s", cfg, two), "first use:\n"+one)
+		}
+	}
 	for _, cfg := range allCfgs(0, true) {
 		x.Count("configs_checked")
 		out := fmtSchema(s, cfg.opts())
